@@ -100,6 +100,14 @@ static CO_ERR COTPdoNumWrite(struct CO_OBJ_T *obj, struct CO_NODE_T *node, void 
         if (result != CO_ERR_NONE) {
             return (CO_ERR_OBJ_MAP_TYPE);
         }
+        /* an entry must name an object (or a dummy type in a RPDO mapping) */
+        if (CODictFind(cod, mapentry) == (CO_OBJ *)0) {
+            if ((pmapidx > COT_OBJECT_RPDO + COT_OBJECT_NUM) ||
+                ((mapentry >> 16) < 2u) ||
+                ((mapentry >> 16) > 7u)) {
+                return (CO_ERR_OBJ_MAP_TYPE);
+            }
+        }
         mapbytes += ((uint8_t)mapentry) >> 3u;
     }
     if (mapbytes > 8) {
